@@ -22,7 +22,7 @@ BT = "flussab-btor2/src/token.rs"
 BB = "flussab-btor2/src/btor2.rs"
 
 M = [
-    ("swar-guard-7", "C13,C01", T, "    if reader.buf_len() < offset + 8 {\n        return ascii_digits_multi_cold(reader, offset);", "    if reader.buf_len() < offset + 7 {\n        return ascii_digits_multi_cold(reader, offset);"),
+    ("swar-guard-7", "C13,C01", T, "    if reader.buf_len().saturating_sub(offset) < 8 {\n        return ascii_digits_multi_cold(reader, offset);", "    if reader.buf_len().saturating_sub(offset) < 7 {\n        return ascii_digits_multi_cold(reader, offset);"),
     ("request-byte-cold-lt", "C02", R, "        while self.valid_len <= offset {\n            if !self.request_more()", "        while self.valid_len < offset {\n            if !self.request_more()"),
     ("no-interrupted-retry", "C01,C02", R, "                Err(err) if err.kind() == io::ErrorKind::Interrupted => continue,\n", ""),
     ("realign-no-pos-of-buf", "C02,C08", R, "            self.pos_of_buf = self.pos_of_buf.wrapping_add(self.pos_in_buf);\n", ""),
